@@ -826,7 +826,15 @@ func (ms *monitorState) checkAdmission(kt *keyTrack, before *MKey, h *MHold) {
 	}
 	oldest := before.Holders[0]
 	if h.Count == 0 || n > uint32(h.Count) || n > uint32(oldest.Count) {
-		ms.violate("C01", "inadmissible_grant", "key %d: l%d (Count %d) became a holder while %d holds were outstanding (oldest holder Count %d): %s", keyIndex(kt.id.key), lidIndex(h.Lid), h.Count, n, oldest.Count, before.sig())
+		class, sig := "inadmissible_grant", before.sig()
+		if h.Count == 0xffff && oldest.Count == 0xffff && n >= 0xffff {
+			// F75: doLock treats Count 0xffff on both sides as "no bound" once 65535 holds exist
+			class = "count_ffff_not_a_bound"
+		}
+		if len(sig) > 600 {
+			sig = sig[:600] + " ..."
+		}
+		ms.violate("C01", class, "key %d: l%d (Count %d) became a holder while %d holds were outstanding (oldest holder Count %d): %s", keyIndex(kt.id.key), lidIndex(h.Lid), h.Count, n, oldest.Count, sig)
 	}
 }
 
